@@ -39,8 +39,12 @@ enum Kind {
 	NestedUnderPaused,
 	/// a resource = a child track with its own child; dropping it drops both handles (child first)
 	NestedChain,
+	/// child tracks of a spatial track built with sub_track_capacity(cap)
+	NestedUnderSpatial,
+	/// sounds on a spatial track built with sound_capacity(cap)
+	SoundOnSpatial,
 }
-const KINDS: [Kind; 14] = [
+const KINDS: [Kind; 16] = [
 	Kind::ProbeSoundMain,
 	Kind::StaticSoundMain,
 	Kind::SoundSub,
@@ -55,11 +59,13 @@ const KINDS: [Kind; 14] = [
 	Kind::FallibleSoundMain,
 	Kind::NestedUnderPaused,
 	Kind::NestedChain,
+	Kind::NestedUnderSpatial,
+	Kind::SoundOnSpatial,
 ];
 const CAPS: [usize; 3] = [0, 1, 2];
 const LETTERS: [&str; 5] = ["create", "drop oldest handle", "drop newest handle", "finish oldest sound", "callback"];
 const NL: u64 = 5;
-const STALE_CASES: u64 = 5;
+const STALE_CASES: u64 = 7;
 const E2_CASES: u64 = 6;
 const E2N_CASES: u64 = 4;
 
@@ -116,7 +122,7 @@ impl Check for C08 {
 		format!("{:?} capacity {}", k, c)
 	}
 	fn rule(&self) -> String {
-		"all histories of length <= depth over {create, drop oldest handle, drop newest handle, finish oldest sound, callback} x 14 resource kinds (incl. child tracks of a paused parent, and child+grandchild chains dropped together) x capacity {0,1,2}, judged by a counting model (pending / adopted / marked); plus 5 stale-id scenarios (clock, modulator, listener, send track, sub-track slot reuse). states = distinct model states (per-resource phase vectors); non-trivial = histories in which at least one creation succeeded and one removal happened".into()
+		"all histories of length <= depth over {create, drop oldest handle, drop newest handle, finish oldest sound, callback} x 16 resource kinds (incl. child tracks / sounds of a spatial track with non-default capacities, child tracks of a paused parent, and child+grandchild chains dropped together) x capacity {0,1,2}, judged by a counting model (pending / adopted / marked); plus 5 stale-id scenarios (clock, modulator, listener, send track, sub-track slot reuse). states = distinct model states (per-resource phase vectors); non-trivial = histories in which at least one creation succeeded and one removal happened".into()
 	}
 	fn assumptions(&self) -> Vec<String> {
 		vec![
@@ -181,7 +187,7 @@ fn enumerate(kind: Kind, cap: usize, letters: &mut Vec<u8>, depth: usize, ctx: &
 }
 
 fn is_sound(k: Kind) -> bool {
-	matches!(k, Kind::ProbeSoundMain | Kind::StaticSoundMain | Kind::SoundSub | Kind::FallibleSoundMain)
+	matches!(k, Kind::ProbeSoundMain | Kind::StaticSoundMain | Kind::SoundSub | Kind::FallibleSoundMain | Kind::SoundOnSpatial)
 }
 
 fn hist(kind: Kind, cap: usize, letters: &[u8]) -> String {
@@ -214,6 +220,7 @@ fn instant() -> Tween {
 struct Rig {
 	m: Manager,
 	parent: Option<TrackHandle>,
+	sparent: Option<kira::track::SpatialTrackHandle>,
 	listener: Option<kira::listener::ListenerHandle>,
 	handles: Vec<Option<Box<dyn Any>>>,
 	probes: Vec<Option<Arc<ProbeShared>>>,
@@ -242,21 +249,27 @@ fn run_history(kind: Kind, cap: usize, letters: &[u8], ctx: &mut Ctx) {
 		}
 		_ => None,
 	};
-	let listener = if kind == Kind::SpatialTrack {
+	let listener = if matches!(kind, Kind::SpatialTrack | Kind::NestedUnderSpatial | Kind::SoundOnSpatial) {
 		Some(m.add_listener(glam::Vec3::ZERO, glam::Quat::IDENTITY).expect("listener"))
 	} else {
 		None
 	};
+	let sparent = match kind {
+		Kind::NestedUnderSpatial => Some(m.add_spatial_sub_track(listener.as_ref().unwrap(), glam::Vec3::new(0.0, 0.0, 1.0), SpatialTrackBuilder::new().sub_track_capacity(cap)).expect("spatial parent")),
+		Kind::SoundOnSpatial => Some(m.add_spatial_sub_track(listener.as_ref().unwrap(), glam::Vec3::new(0.0, 0.0, 1.0), SpatialTrackBuilder::new().sound_capacity(cap)).expect("spatial parent")),
+		_ => None,
+	};
 	let mut r = Rig {
 		m,
 		parent,
+		sparent,
 		listener,
 		handles: vec![],
 		probes: vec![],
 	};
 	let mut buf = vec![0.0f32; 16];
 	// let the parent be adopted so that it is not part of the history
-	if r.parent.is_some() || r.listener.is_some() {
+	if r.parent.is_some() || r.listener.is_some() || r.sparent.is_some() {
 		let rep = rig::callback(&mut r.m, &mut buf, 4, 2);
 		if !rep.ok() {
 			ctx.fail(format!("callback monitor (setup): {:?} :: {:?}", rep.panic.clone().or(rep.bad_sample.clone()), kind), hist(kind, cap, letters));
@@ -320,7 +333,7 @@ fn run_history(kind: Kind, cap: usize, letters: &[u8], ctx: &mut Ctx) {
 				let pick = (0..model.len()).find(|i| model[*i].map(|m| !m.marked && !m.stop_requested).unwrap_or(false));
 				if let Some(i) = pick {
 					match kind {
-						Kind::ProbeSoundMain | Kind::FallibleSoundMain => {
+						Kind::ProbeSoundMain | Kind::FallibleSoundMain | Kind::SoundOnSpatial => {
 							if let Some(p) = &r.probes[i] {
 								p.finished.store(true, Ordering::SeqCst);
 							}
@@ -459,6 +472,19 @@ fn create(r: &mut Rig, kind: Kind, serial: usize) -> Created {
 			Ok(h) => Created::Ok(Box::new(h), None),
 			Err(_) => Created::Limit,
 		},
+		Kind::NestedUnderSpatial => match r.sparent.as_mut().unwrap().add_sub_track(TrackBuilder::new()) {
+			Ok(h) => Created::Ok(Box::new(h), None),
+			Err(_) => Created::Limit,
+		},
+		Kind::SoundOnSpatial => {
+			let d = ProbeSoundData::new((0.1, 0.0), (0.1, 0.0));
+			let sh = d.shared.clone();
+			match r.sparent.as_mut().unwrap().play(d) {
+				Ok(h) => Created::Ok(Box::new(h), Some(sh)),
+				Err(PlaySoundError::SoundLimitReached) => Created::Limit,
+				Err(_) => Created::IntoSoundError,
+			}
+		}
 		Kind::NestedChain => match r.parent.as_mut().unwrap().add_sub_track(TrackBuilder::new().sub_track_capacity(1)) {
 			Ok(mut h) => {
 				let g = h.add_sub_track(TrackBuilder::new()).expect("grandchild");
@@ -504,6 +530,8 @@ fn reported_count(r: &mut Rig, kind: Kind) -> Option<usize> {
 		// the parent track of the SoundSub/NestedSubTrack scenarios lives in the manager's sub-track arena too
 		Kind::SubTrack | Kind::SpatialTrack => Some(r.m.num_sub_tracks()),
 		Kind::NestedSubTrack | Kind::NestedUnderPaused | Kind::NestedChain => Some(r.parent.as_ref().unwrap().num_sub_tracks()),
+		Kind::NestedUnderSpatial => Some(r.sparent.as_ref().unwrap().num_sub_tracks()),
+		Kind::SoundOnSpatial => Some(r.sparent.as_ref().unwrap().num_sounds()),
 		Kind::SendTrack => Some(r.m.num_send_tracks()),
 		Kind::Clock => Some(r.m.num_clocks()),
 		Kind::Tweener | Kind::Lfo => Some(r.m.num_modulators()),
@@ -622,6 +650,62 @@ fn stale_ids(which: u64, ctx: &mut Ctx) {
 			}
 			if after.iter().any(|f| (f.0 - 0.25).abs() > 1e-6) {
 				ctx.fail("stale SendTrackId routes into a newer send track in the same slot", format!("{:?}", after));
+			}
+		}
+		5 => {
+			// a sound that finishes on a persisting track whose handle is long gone: still destroyed on a caller's thread
+			// (the callback monitor - no free on the audio thread - and the probe's Drop record decide)
+			let mut m = rig::manager(sr, 4, rig::caps(4), MainTrackBuilder::new());
+			let mut t = m.add_sub_track(TrackBuilder::new().persist_until_sounds_finish(true)).unwrap();
+			let d = ProbeSoundData::new((0.1, 0.0), (0.1, 0.0));
+			let p = t.play(d).expect("play");
+			cb(&mut m, &mut buf, ctx, "orphaned persisting track");
+			drop(t);
+			cb(&mut m, &mut buf, ctx, "orphaned persisting track");
+			p.finished.store(true, Ordering::SeqCst);
+			for _ in 0..3 {
+				cb(&mut m, &mut buf, ctx, "orphaned persisting track");
+			}
+			if p.dropped_in_callback.load(Ordering::SeqCst) {
+				ctx.fail("resource destroyed on the audio thread :: sound finishing on a persisting track whose handle was dropped", "");
+			}
+			if m.num_sub_tracks() != 0 {
+				ctx.fail("a persisting track is not removed after its last sound finished :: orphaned persisting track", format!("num_sub_tracks {}", m.num_sub_tracks()));
+			}
+			// the gameplay thread reclaims everything when it next creates a track
+			let _ = m.add_sub_track(TrackBuilder::new());
+		}
+		6 => {
+			// parent with two children; the parent's handle is dropped first, then one child's: that child is removed from a
+			// storage nobody will ever drain - it must still not be destroyed on the audio thread
+			let mut m = rig::manager(sr, 4, rig::caps(4), MainTrackBuilder::new());
+			let mut parent = m.add_sub_track(TrackBuilder::new()).unwrap();
+			let mut a = parent.add_sub_track(TrackBuilder::new()).unwrap();
+			let b = parent.add_sub_track(TrackBuilder::new()).unwrap();
+			let pa = a.play(ProbeSoundData::new((0.1, 0.0), (0.1, 0.0))).expect("play");
+			cb(&mut m, &mut buf, ctx, "orphaned parent");
+			drop(parent);
+			cb(&mut m, &mut buf, ctx, "orphaned parent");
+			drop(a);
+			for _ in 0..3 {
+				cb(&mut m, &mut buf, ctx, "orphaned parent");
+			}
+			if pa.dropped_in_callback.load(Ordering::SeqCst) {
+				ctx.fail("resource destroyed on the audio thread :: child of a parent whose handle was dropped earlier", "");
+			}
+			if m.num_sub_tracks() != 1 {
+				ctx.fail("a parent track is removed while a child track is alive (or counted twice) :: orphaned parent", format!("num_sub_tracks {}", m.num_sub_tracks()));
+			}
+			drop(b);
+			for _ in 0..2 {
+				cb(&mut m, &mut buf, ctx, "orphaned parent");
+			}
+			if m.num_sub_tracks() != 0 {
+				ctx.fail("a parent track is not removed after its last child :: orphaned parent", format!("num_sub_tracks {}", m.num_sub_tracks()));
+			}
+			let _ = m.add_sub_track(TrackBuilder::new());
+			if pa.dropped_in_callback.load(Ordering::SeqCst) {
+				ctx.fail("resource destroyed on the audio thread :: child of a parent whose handle was dropped earlier", "");
 			}
 		}
 		_ => {
